@@ -89,6 +89,16 @@ CHECKS = {
                      "equal the generator's own reference evaluation, case by case.",
                 note="the reference evaluator is the generator's Python model of the documented semantics; unspecified behaviours "
                      "(argument aliasing through assignment inside arguments) are not generated"),
+    "C11": dict(level="model_checking", engine="seqmc", design="5/C11",
+                technique="bounded-exhaustive enumeration of pattern matrices (rows x guard placements) over finite scrutinee types; real "
+                          "checker's diagnostics compared with brute force over all values; accepted matrices executed on both generators",
+                text="22 pattern spaces over Bool, enums with and without payloads, Option, tuples, positional/named structs and classes, "
+                     "nested up to depth 3, with wildcards, bindings, literals, `..` rest patterns and alternatives, plus Int64/Int32/Char/"
+                     "String literal scrutinees: every matrix of up to 2-4 rows x guard placements is checked by the real front end; "
+                     "NON_EXHAUSTIVE_MATCH and every USELESS_PATTERN (line and column, down to the alternative) must equal brute force "
+                     "over all values; every accepted matrix of the small types is compiled with both generators and called with every "
+                     "value x every guard mask: the arm taken and the values bound must equal the first matching row.",
+                note="row and depth bounds per space are listed in the evidence; literal domains are the three literals plus one other value"),
     "C13": dict(level="exploration", engine="progspace", design="5/C13",
                 technique="enumeration of frame shape x recursion kind x thread and of allocation entry x element type x hostile length, "
                           "executed on both code generators and the collectors",
